@@ -104,14 +104,19 @@ func bridgeCalldata(chain string, tx int) []byte {
 }
 
 // L2BridgeBlockViaLogs renders a closed L2 block for the L2 bridge syncer's store by running the real log handlers.
-func (w *World) L2BridgeBlockViaLogs(b *Block) (sync.Block, error) {
+func (w *World) L2BridgeBlockViaLogs(b *Block) (sync.Block, error) { return w.bridgeBlockViaLogs("L2", b) }
+
+// L1BridgeBlockViaLogs: the same for the L1 bridge syncer's store (bridges only; claims on L1 are not part of a world).
+func (w *World) L1BridgeBlockViaLogs(b *Block) (sync.Block, error) { return w.bridgeBlockViaLogs("L1", b) }
+
+func (w *World) bridgeBlockViaLogs(chain string, b *Block) (sync.Block, error) {
 	lp := getL2Path()
 	eb := &sync.EVMBlock{EVMBlockHeader: sync.EVMBlockHeader{Num: b.Num, Hash: b.Hash, ParentHash: b.ParentHash, Timestamp: b.Timestamp}}
 	for _, e := range b.Events {
-		if e.Kind != EvBridge && e.Kind != EvClaim {
+		if e.Kind != EvBridge && (e.Kind != EvClaim || chain != "L2") {
 			continue
 		}
-		txh := TxHash("L2", e.Tx)
+		txh := TxHash(chain, e.Tx)
 		var (
 			evName string
 			data   []byte
@@ -123,7 +128,7 @@ func (w *World) L2BridgeBlockViaLogs(b *Block) (sync.Block, error) {
 			evName = "BridgeEvent"
 			data, err = lp.abi.Events[evName].Inputs.Pack(d.LeafType, d.OriginNetwork, d.OriginAddress, d.DestinationNetwork,
 				d.DestinationAddress, d.Amount, d.Metadata, d.Count)
-			lp.setTrace(txh, Sender("L2", e.Tx), bridgeCalldata("L2", d.Tx))
+			lp.setTrace(txh, Sender(chain, e.Tx), bridgeCalldata(chain, d.Tx))
 		case EvClaim:
 			evName = "ClaimEvent"
 			cd := e.Claim
@@ -142,7 +147,7 @@ func (w *World) L2BridgeBlockViaLogs(b *Block) (sync.Block, error) {
 			var input []byte
 			input, err = lp.abi.Pack(method, pl, pr, cd.GlobalIndex, [32]byte(cd.MER), [32]byte(cd.RER), d.OriginNetwork, d.OriginAddress,
 				d.DestinationNetwork, d.DestinationAddress, d.Amount, d.Metadata)
-			lp.setTrace(txh, Sender("L2", e.Tx), input)
+			lp.setTrace(txh, Sender(chain, e.Tx), input)
 		}
 		if err != nil {
 			return sync.Block{}, fmt.Errorf("world: packing %s: %w", evName, err)
@@ -157,7 +162,7 @@ func (w *World) L2BridgeBlockViaLogs(b *Block) (sync.Block, error) {
 		herr := h(eb, l)
 		lp.dropTrace(txh)
 		if herr != nil {
-			return sync.Block{}, fmt.Errorf("the bridge syncer's %s handler refused the log of L2 block %d, log %d: %w", evName, b.Num, e.LogIndex, herr)
+			return sync.Block{}, fmt.Errorf("the bridge syncer's %s handler refused the log of %s block %d, log %d: %w", evName, chain, b.Num, e.LogIndex, herr)
 		}
 	}
 	return sync.Block{Num: b.Num, Hash: b.Hash, Events: eb.Events}, nil
